@@ -96,8 +96,11 @@ static std::vector<Frame> lastFrames; static std::vector<Deliv> lastDeliv; stati
 // Passive bus monitor = the reference peer's bookkeeping (J1939-21 + the property statement; independent of the model).
 // It sees: frames handed to the node (in processing order), frames the node produced per op, handler deliveries, time.
 // Documented library timeouts used as the reference: sender gives up 50 ms after RTS / 100 ms after a CTS.
+struct BamHyp { int sent; uint64_t lastAct; };   // one consistent reading of a BAM session: packets out so far, time of the last one
 struct TxSess { int st = 0;   // 0 none (free), 1 alive, 2 maybe (deadline hit exactly / cause unknown)
-  bool bam = false; unsigned dst = 0; unsigned long pgn = 0; std::vector<unsigned char> pl; int npk = 0; int sent = 0; uint64_t lastAct = 0; unsigned tmo = 50; };
+  bool bam = false; unsigned dst = 0; unsigned long pgn = 0; std::vector<unsigned char> pl; int npk = 0; int sent = 0; uint64_t lastAct = 0; unsigned tmo = 50;
+  std::vector<BamHyp> hyp; };   // BAM only: all readings consistent with what was seen (a packet due at the very boundary instant, or
+                                // due while the driver refuses frames, may or may not have been consumed without reaching the bus)
 struct RxSess { bool rts, ours; int dev; unsigned src, dst; unsigned long pgn; unsigned size; int npk; int got; int winEnd; std::vector<unsigned char> data;
   int admitted;   // 1 yes, 2 unknown
   uint64_t lastAct; };
@@ -190,18 +193,34 @@ static void monSend(int k, int dev, unsigned prio, unsigned long pgn, unsigned d
 static void txTimers(Mon &m, int dev) {
   TxSess &s = m.tx[dev]; if (s.st == 0) return;
   if (s.bam) {
-    bool due = g_now > s.lastAct + 50, edge = g_now == s.lastAct + 50;
+    if (s.hyp.empty()) s.hyp.push_back({s.sent, s.lastAct});
     const Frame *f = peekDT(m, m.addr[dev], 255);
-    if (!due && !edge) return;                                          // a DT here is reported as unexpected (pacing)
-    if (!f) {
-      if (edge) return;
-      if (canSend(m, dev) != 1 || m.refused) { s.sent++; s.lastAct = g_now; C.count("bam_dt_lost_to_backpressure"); if (s.sent >= s.npk) s.st = 0; return; }
-      C.fail("C10:bam-stall", "dev %d: BAM data packet %d not sent %llu ms after the previous one", dev, s.sent + 1, (unsigned long long)(g_now - s.lastAct)); s.st = 0; return;
+    bool lossy = canSend(m, dev) != 1 || m.refused;          // a packet the library consumed need not have reached the bus
+    std::vector<BamHyp> next; bool consumed = false;
+    for (auto &h : s.hyp) {
+      bool done = h.sent >= s.npk, due = !done && g_now > h.lastAct + 50, edge = !done && g_now == h.lastAct + 50;
+      if (f) { if ((due || edge) && dtContentOk(*f, s.pl, h.sent + 1)) { next.push_back({h.sent + 1, g_now}); consumed = true; } }
+      else {
+        if (!due) next.push_back(h);                           // nothing was due (or only at the boundary instant)
+        if ((due || edge) && lossy) next.push_back({h.sent + 1, g_now});
+      }
     }
-    m.pi++;
-    if (!dtContentOk(*f, s.pl, s.sent + 1)) C.fail(std::string("C10:bam-dt-content:") + lenKey(s.pl.size()), "BAM packet %d is %s", s.sent + 1, frameStr(*f).c_str());
-    s.sent++; s.lastAct = g_now; C.count("bam_dt");
-    if (s.sent >= s.npk) { s.st = 0; C.count("bam_complete"); }
+    if (next.empty()) {                                        // no reading explains what the library did: report against the first one
+      BamHyp h = s.hyp[0]; bool due = g_now > h.lastAct + 50, edge = g_now == h.lastAct + 50;
+      if (!f) C.fail("C10:bam-stall", "dev %d: BAM data packet %d not sent %llu ms after the previous one", dev, h.sent + 1, (unsigned long long)(g_now - h.lastAct));
+      else if (!due && !edge) C.fail("C10:unexpected-frame:bam-dt-pacing", "poll: %s %llu ms after the previous BAM packet", frameStr(*f).c_str(), (unsigned long long)(g_now - h.lastAct));
+      else C.fail(std::string("C10:bam-dt-content:") + lenKey(s.pl.size()), "BAM packet %d is %s", h.sent + 1, frameStr(*f).c_str());
+      if (f) m.pi++;
+      s.st = 0; s.hyp.clear(); return;
+    }
+    if (f && consumed) { m.pi++; C.count("bam_dt"); }
+    // drop duplicates
+    std::vector<BamHyp> uniq; for (auto &h : next) { bool dup = false; for (auto &u : uniq) if (u.sent == h.sent && u.lastAct == h.lastAct) dup = true; if (!dup) uniq.push_back(h); }
+    s.hyp = uniq; s.sent = s.hyp[0].sent; s.lastAct = s.hyp[0].lastAct;
+    bool allDone = true, anyDone = false; for (auto &h : s.hyp) { if (h.sent >= s.npk) anyDone = true; else allDone = false; }
+    if (allDone) { s.st = 0; s.hyp.clear(); C.count("bam_complete"); }
+    else s.st = (anyDone || s.hyp.size() > 1) ? 2 : 1;
+    if (s.hyp.size() > 1) C.count("bam_ambiguous_instant");
     return;
   }
   if (g_now > s.lastAct + s.tmo) { s.st = 0; C.count("tx_timeout"); }
